@@ -50,8 +50,8 @@ theorem wireCore_eq (rows : List (String × Nat × Nat)) (chans : List Nat)
     | none => rw [hx] at hs; cases hs
     | some _ => rfl
   unfold chanOf at hm
-  have g1 : decide (c < chans.length) = true := by simp; omega
-  have g2 : decide (chans.getD c 0 ≤ 31) = true := by simp; omega
+  have g1 : decide (c < chans.length) = true := decide_eq_true (by omega)
+  have g2 : decide (chans.getD c 0 ≤ 31) = true := decide_eq_true (by omega)
   unfold wireCore
   rw [need_eq h1, hn, if_neg (by simp), need_eq g1, need_eq g2]
   congr 1
@@ -136,7 +136,7 @@ theorem pwbCore_ok_iff (t : List (List String)) (h : pwbTableOk t = true) (b : N
   rw [need_eq h1, need_eq (by simpa using h2)]
   cases hx : pwbLookup t b with
   | none => simp
-  | some q => simp [ok_eq_ok]
+  | some q => simp
 
 theorem pwbBij_of_ok (t : List (List String)) (h : pwbTableOk t = true) :
     PwbBij (pwbCore t) padwingBoards.length := by
@@ -263,18 +263,6 @@ structure TpcPadBij (f : Nat → Nat → Nat → Outcome String (Nat × Nat))
     f b chip ch = .ok p → f b' chip' ch' = .ok p → b = b' ∧ chip = chip' ∧ ch = ch'
   surj : ∀ c r, c < 32 → r < 576 → ∃ b chip ch, b < nBoards ∧ installed b ∧ chip < 4 ∧ 1 ≤ ch ∧
     ch ≤ 72 ∧ f b chip ch = .ok (c, r)
-
-/-- Composition as in `TpcPadPosition::try_new`. -/
-def padCompose (g : Nat → Outcome String (Nat × Nat)) (b chip ch : Nat) :
-    Outcome String (Nat × Nat) :=
-  match g b with
-  | .err e => .err e
-  | .panic s => .panic s
-  | .ok bp =>
-    match padInPwb chip ch with
-    | .err e => .err e
-    | .panic s => .panic s
-    | .ok pp => padCombine bp pp
 
 theorem padCombine_eq (bp pp : Nat × Nat) (h1 : bp.1 < 8) (h2 : bp.2 < 8) (h3 : pp.1 < 4)
     (h4 : pp.2 < 72) : padCombine bp pp = .ok (bp.1 * 4 + pp.1, bp.2 * 72 + pp.2) := by
